@@ -65,11 +65,11 @@ class BitIO:
         def write_bits(self_, value, bit_length):
             if self_._pv_depth:
                 return o_write(self_, value, bit_length)
-            if self_._bit_offset != self_._pv_pos:
+            if self_.bit_offset != self_._pv_pos:
                 # the position was moved from outside between two calls (the repository's unit tests rewind the writer by
                 # hand; serialize() never does): follow it instead of reporting a difference the writer did not cause
                 mon.count("bitio-writer-resync")
-                self_._pv_pos = self_._bit_offset
+                self_._pv_pos = self_.bit_offset
                 self_._pv_len = max(self_._pv_len, self_._pv_pos)
             self_._pv_depth += 1
             try:
@@ -81,19 +81,19 @@ class BitIO:
             self_._pv_bits = (self_._pv_bits & ~m) | ((int(value) << self_._pv_pos) & m)  # overwrite-capable, like the real buffer
             self_._pv_pos += bit_length
             self_._pv_len = max(self_._pv_len, self_._pv_pos)
-            if self_._bit_offset != self_._pv_pos:
+            if self_.bit_offset != self_._pv_pos:
                 mon.fail("bitio/writer-offset", "after write_bits(%r, %r): offset %r, shadow %r" % (
-                    value, bit_length, self_._bit_offset, self_._pv_pos))
+                    value, bit_length, self_.bit_offset, self_._pv_pos))
 
         @functools.wraps(o_walign)
         def w_align(self_, bit_alignment):
             if self_._pv_depth:
                 return o_walign(self_, bit_alignment)
-            if self_._bit_offset != self_._pv_pos:
+            if self_.bit_offset != self_._pv_pos:
                 # position moved by something the monitor does not wrap (e.g. a new skip method): follow it; the skipped
                 # region counts as zero bits that finish() must materialise
                 mon.count("bitio-writer-resync")
-                self_._pv_pos = self_._bit_offset
+                self_._pv_pos = self_.bit_offset
                 self_._pv_len = max(self_._pv_len, self_._pv_pos)
             self_._pv_depth += 1
             try:
@@ -107,16 +107,16 @@ class BitIO:
                 self_._pv_bits &= ~m
                 self_._pv_pos += pad
                 self_._pv_len = max(self_._pv_len, self_._pv_pos)
-            if self_._bit_offset != self_._pv_pos:
+            if self_.bit_offset != self_._pv_pos:
                 mon.fail("bitio/writer-offset", "after align_to(%r): offset %r, shadow %r" % (
-                    bit_alignment, self_._bit_offset, self_._pv_pos))
+                    bit_alignment, self_.bit_offset, self_._pv_pos))
 
         @functools.wraps(o_finish)
         def finish(self_):
             out = o_finish(self_)
             mon.count("bitio-finish")
-            if self_._bit_offset != self_._pv_pos:
-                self_._pv_pos = self_._bit_offset
+            if self_.bit_offset != self_._pv_pos:
+                self_._pv_pos = self_.bit_offset
                 self_._pv_len = max(self_._pv_len, self_._pv_pos)
             exp = self_._pv_bits.to_bytes((self_._pv_len + 7) // 8, "little")
             if bytes(out) != exp:
@@ -146,7 +146,10 @@ class BitIO:
         def read_bits(self_, bit_length):
             if self_._pv_depth:
                 return o_read(self_, bit_length)
-            before = self_._bit_offset
+            if not hasattr(self_, "_data") or not hasattr(self_, "_pv_bound"):
+                mon.broken(AttributeError("_BitReader has no _data / was not constructed through __init__"))
+                return o_read(self_, bit_length)
+            before = self_.bit_offset
             self_._pv_depth += 1
             try:
                 got = o_read(self_, bit_length)
@@ -158,26 +161,26 @@ class BitIO:
             if got != exp:
                 mon.fail("bitio/reader-value", "read_bits(%d) at %d (bound %d, data %d bits): got %#x expected %#x" % (
                     bit_length, before, self_._pv_bound, len(self_._data) * 8, got, exp))
-            if self_._bit_offset != before + bit_length:
-                mon.fail("bitio/reader-offset", "read_bits(%d) at %d moved the offset to %d" % (bit_length, before, self_._bit_offset))
+            if self_.bit_offset != before + bit_length:
+                mon.fail("bitio/reader-offset", "read_bits(%d) at %d moved the offset to %d" % (bit_length, before, self_.bit_offset))
             return got
 
         @functools.wraps(o_ralign)
         def r_align(self_, bit_alignment):
-            before = self_._bit_offset
+            before = self_.bit_offset
             o_ralign(self_, bit_alignment)
             mon.count("bitio-read")
             exp = before + ((-before) % bit_alignment if bit_alignment > 0 else 0)
-            if self_._bit_offset != exp:
-                mon.fail("bitio/reader-offset", "align_to(%d) at %d moved the offset to %d" % (bit_alignment, before, self_._bit_offset))
+            if self_.bit_offset != exp:
+                mon.fail("bitio/reader-offset", "align_to(%d) at %d moved the offset to %d" % (bit_alignment, before, self_.bit_offset))
 
         @functools.wraps(o_sub)
         def bounded_subreader(self_, bit_count):
-            before = self_._bit_offset
+            before = self_.bit_offset
             sub = o_sub(self_, bit_count)
             mon.count("bitio-subreader")
-            if self_._bit_offset != before + bit_count:
-                mon.fail("bitio/subreader", "parent advanced from %d to %d for a %d-bit sub-object" % (before, self_._bit_offset, bit_count))
+            if self_.bit_offset != before + bit_count:
+                mon.fail("bitio/subreader", "parent advanced from %d to %d for a %d-bit sub-object" % (before, self_.bit_offset, bit_count))
             if getattr(sub, "_start_offset", before) != before or sub.bit_offset != before or sub._data is not self_._data:
                 mon.fail("bitio/subreader", "sub-reader does not start where the parent stood (%r vs %d)" % (getattr(sub, "_bit_offset", None), before))
             # the effective bound can only shrink
